@@ -2,9 +2,11 @@ package props
 
 import (
 	"bytes"
+	"crypto/rsa"
 	"crypto/x509"
 	"fmt"
 	"math/big"
+	"strings"
 	"testing"
 
 	"pgregory.net/rapid"
@@ -24,6 +26,8 @@ type c14Case struct {
 	CSRDER   []byte   // pre-placed request (CSR case)
 	Lead     string   // text before the first block
 	Trail    string   // text after the last block
+	Layout   int      `json:",omitempty"` // 0 plain names; 1 dotted directory names; 2 dotted file stems (siblings share the first label); 3 both
+	NoNull   bool     `json:",omitempty"` // RSA key whose PKCS#8 AlgorithmIdentifier has no NULL parameters (another tool's flavour)
 	HashPos  int      `json:",omitempty"` // a (stale) hash line in the pre-placed file: 0 none, 1 first, 2 after the first block, 3 after the last block
 	WithCert bool     // a (foreign) certificate beside the key
 	Steps    []string // regeneration reasons
@@ -45,6 +49,22 @@ func c14World(c c14Case) World {
 	leaf := core.Entity{File: "mid/leaves/leaf.json", Subject: []core.RDN{{Key: "CN", Value: "C14 Leaf"}}, Issuer: "mid", SigAlg: sigFor("mid"),
 		Extensions: []core.Extension{{Kind: core.KAKI, HasContent: true, AKI: "hash"}, {Kind: core.KSKI, HasContent: true, SKI: "hash"}}}
 	w.Ents = []core.Entity{ca, mid, leaf}
+	if c.Layout != 0 {
+		// explicit aliases keep the references stable while the paths get dots in front of the extension
+		dir, stem := "", ""
+		if c.Layout&1 != 0 {
+			dir = "example.com/v1.0/"
+		}
+		if c.Layout&2 != 0 {
+			stem = "pki."
+		}
+		for i, n := range []string{"ca", "mid", "leaf"} {
+			e := &w.Ents[i]
+			e.Alias = n
+			ext := e.File[strings.LastIndex(e.File, "."):]
+			e.File = dir + []string{"", "mid/", "mid/"}[i] + stem + n + []string{"", ".example.org", ".g2"}[i%3*(c.Layout>>1&1)] + ext
+		}
+	}
 	t := w.Ent(c.Target)
 	t.KeyAlg = c.CfgAlg
 	if c.BigExt > 0 {
@@ -87,7 +107,7 @@ func checkC14(c c14Case) *core.Failure {
 	var want *xref.Key
 	if c.KeyDER != nil {
 		var err error
-		if want, err = xref.ParsePKCS8(c.KeyDER); err != nil {
+		if want, err = xref.ParsePKCS8Lenient(c.KeyDER); err != nil {
 			return nil
 		}
 	}
@@ -98,6 +118,17 @@ func checkC14(c c14Case) *core.Failure {
 	verify := func(phase string, res core.RunResult) *core.Failure {
 		if res.Panic != "" {
 			return core.Failf("C14/panic", "%s: gopki panicked: %s", phase, res.Panic)
+		}
+		if !res.OK() && c.NoNull {
+			// whether this flavour is "a PKCS#8 key" is open; refusing it is fine, replacing it is not
+			if f := d.Files[core.PemPath(t.File)]; f != nil {
+				if a := core.ParseArtifact(f.Data); a.KeyDER != nil {
+					if k, err := xref.ParsePKCS8Lenient(a.KeyDER); err == nil && k.Same(want) {
+						return nil
+					}
+				}
+			}
+			return core.Failf("C14/key-replaced", "%s: the run failed (%s) and the artifact of %s no longer holds the key it was given", phase, res.String(), c.Target)
 		}
 		if !res.OK() {
 			return core.Failf("C14/run-failed", "%s: %s\n%v", phase, res.String(), w.Texts())
@@ -190,16 +221,16 @@ var c14Steps = []string{"edit-subject", "edit-keyalg", "all", "touch-outdated", 
 func TestC14(t *testing.T) {
 	r := core.Start(t, "C14")
 	defer r.Finish()
-	r.Rule = "three-tier hierarchy ca -> mid -> leaf; the target (any tier) pre-holds a PKCS#8 key written in gopki's shape, crypto/x509's shape or another legal shape from the harness builder (curve OID inside / outside / both, public key omitted, minimal or zero-padded scalar) for all ten curves and pooled RSA 1024/2048 (4096 in thorough), optionally with an old certificate beside it, with text before the first / after the last PEM block and with the hash line of an earlier run in front of, between or behind the blocks; or (leaf only) a certificate request and no key. Then 1-4 regenerations by different reasons: subject edit, keyAlgorithm edit, generate-all, touched config with -o, certificate block removed, issuer edited. Oracle after every run: same key (curve,d)/(n,e,d) in the file, certificate SPKI == that key's public key recomputed by the harness, chain checks of C01 over all three tiers; request case: request block byte-identical, SPKI == request's, no PRIVATE KEY block. Non-trivial = >= 2 regenerations of a non-P-256 key, or a foreign encoding / surrounding text, or the request case; distinct by the full case."
+	r.Rule = "three-tier hierarchy ca -> mid -> leaf; the target (any tier) pre-holds a PKCS#8 key written in gopki's shape, crypto/x509's shape or another legal shape from the harness builder (curve OID inside / outside / both, public key omitted, minimal or zero-padded scalar) for all ten curves and pooled RSA 1024/2048 (4096 in thorough), optionally with an old certificate beside it, with text before the first / after the last PEM block and with the hash line of an earlier run in front of, between or behind the blocks; RSA keys also in the flavour without NULL parameters (refusing that one is accepted, replacing it is not); paths with dots in directory names and file stems; or (leaf only) a certificate request and no key. Then 1-4 regenerations by different reasons: subject edit, keyAlgorithm edit, generate-all, touched config with -o, certificate block removed, issuer edited. Oracle after every run: same key (curve,d)/(n,e,d) in the file, certificate SPKI == that key's public key recomputed by the harness, chain checks of C01 over all three tiers; request case: request block byte-identical, SPKI == request's, no PRIVATE KEY block. Non-trivial = >= 2 regenerations of a non-P-256 key, or a foreign encoding / surrounding text, or the request case; distinct by the full case."
 	r.Assumptions = []string{"a key on a curve gopki does not support is outside the property and not generated"}
 	wrap := func(c c14Case) *core.Failure {
-		nt := len(c.Steps) >= 2 && c.KeyAlg != "P-256" || c.Lead != "" || c.Trail != "" || c.CSRDER != nil || c.HashPos > 1
+		nt := len(c.Steps) >= 2 && c.KeyAlg != "P-256" || c.Lead != "" || c.Trail != "" || c.CSRDER != nil || c.HashPos > 1 || c.Layout != 0 || c.NoNull
 		if c.CSRDER != nil && c.KeyDER != nil {
 			r.Classes["key-plus-stale-request"]++
 		}
 		key := ""
 		if nt {
-			key = fmt.Sprintf("%s %s %x %v %q %q %d", c.Target, c.KeyAlg, c.KeyDER, c.Steps, c.Lead, c.Trail, c.HashPos)
+			key = fmt.Sprintf("%s %s %x %v %q %q %d %d", c.Target, c.KeyAlg, c.KeyDER, c.Steps, c.Lead, c.Trail, c.HashPos, c.Layout)
 		}
 		cls := []string{"target:" + c.Target, "alg:" + c.KeyAlg, fmt.Sprintf("steps:%d", len(c.Steps))}
 		if c.CSRDER != nil && c.KeyDER == nil {
@@ -207,6 +238,10 @@ func TestC14(t *testing.T) {
 		}
 		for _, s := range c.Steps {
 			cls = append(cls, "step:"+s)
+		}
+		cls = append(cls, fmt.Sprintf("layout:%d", c.Layout))
+		if c.NoNull {
+			cls = append(cls, "rsa-pkcs8-without-null")
 		}
 		cls = append(cls, []string{"hash-line:none", "hash-line:first", "hash-line:between-blocks", "hash-line:last"}[c.HashPos])
 		r.Case(key, cls...)
@@ -238,6 +273,14 @@ func TestC14(t *testing.T) {
 			c.KeyAlg = rapid.SampledFrom(algs).Draw(t, "alg")
 			if isRSAName(c.KeyAlg) {
 				c.KeyDER = pkcs8ForAlg(t, c.KeyAlg, "rsakey")
+				if rapid.IntRange(0, 3).Draw(t, "rsa-no-null") == 0 {
+					k, err := x509.ParsePKCS8PrivateKey(c.KeyDER)
+					if err != nil {
+						panic(err)
+					}
+					c.KeyDER = der.Seq(der.Integer(0), der.Seq(der.MustOID(xref.OIDRSA)), der.Octets(x509.MarshalPKCS1PrivateKey(k.(*rsa.PrivateKey))))
+					c.NoNull = true
+				}
 			} else {
 				cv := ecref.Curves[c.KeyAlg]
 				d := genScalar(t, cv, "d")
@@ -281,6 +324,7 @@ func TestC14(t *testing.T) {
 			}
 		}
 		c.HashPos = rapid.SampledFrom([]int{0, 0, 1, 2, 3}).Draw(t, "hashpos")
+		c.Layout = rapid.SampledFrom([]int{0, 0, 0, 1, 2, 3}).Draw(t, "layout")
 		c.Lead = rapid.SampledFrom([]string{"", "", "", "# my key, do not lose\n", "\n\n", "Bag Attributes\n    friendlyName: x\n"}).Draw(t, "lead")
 		c.Trail = rapid.SampledFrom([]string{"", "", "", "\n", "# end of file\n", "trailing text without newline", "\r\n\r\n"}).Draw(t, "trail")
 		if rapid.IntRange(0, 5).Draw(t, "bigext") == 0 {
